@@ -11,7 +11,7 @@ LEVEL = "translation_validation"
 ITEM_CAP = {"quick": 60, "thorough": 120}
 FUNCS = ["qlasskit.qlassfun.qlassf -> UnboundQlassf", "qlasskit.qlassfun.UnboundQlassf.bind", "qlasskit.qlassfun.is_parameter_annotation",
          "qlasskit.ast2ast.astrewriter.ASTRewriter.visit_Assign / constantfolder.ConstantFolder (propagation of the injected assignments)"]
-BOUNDS = "26 parameterised programs (bool, Qint[2..4], Qlist, Tuple parameters; 1-3 parameters; first/last/interleaved) x ALL parameter values of the declared types x keyword orders x bind histories {v; v,v',v} on one unbound object; remaining arguments symbolic; both optimizer profiles"
+BOUNDS = "29 parameterised programs (bool, Qint[2..4], Qlist, Tuple parameters; 1-3 parameters; first/last/interleaved) x ALL parameter values of the declared types x keyword orders x bind histories {v; v,v',v} on one unbound object; remaining arguments symbolic; both optimizer profiles"
 OUTSIDE = "program texts enumerated; parameter values enumerated exhaustively (they are compile-time python values, not solver variables)"
 ASSUMPTIONS = ["reference meaning of a bound function = RefSem of the unbound source with the parameters replaced by constant assignments",
                "'unbound object unchanged' is a frame condition: ast.dump(fun_ast), parameters dict compared before/after each bind"]
@@ -43,6 +43,9 @@ PROGS = [
     ("def prog(t: Parameter[Qmatrix[Qint[2], 3, 2]], r: Qint[2], c: Qint[2]) -> Qint[2]:\n    return t[r][c]\n", {"t": "tab32"}),
     ("def prog(t: Parameter[Qmatrix[Qint[2], 2, 2]], r: Qint[2], c: Qint[2]) -> Qint[2]:\n    return t[r][c]\n", {"t": "tab22"}),
     ("def prog(t: Parameter[Qmatrix[bool, 1, 4]], c: Qint[2]) -> bool:\n    return t[0][c]\n", {"t": "tab14"}),
+    ("def prog(t: Parameter[Qlist[Qint[2], 4]], ii: Tuple[Qint[2], Qint[2]]) -> Qint[2]:\n    return t[ii[0]]\n", {"t": "tab4"}),
+    ("def prog(t: Parameter[Qlist[Qint[2], 4]], ii: Tuple[Qint[2], Qint[2]]) -> Qint[4]:\n    return t[ii[0]] + t[ii[1]]\n", {"t": "tab4"}),
+    ("def prog(t: Parameter[Qlist[bool, 4]], i: Qint[2]) -> bool:\n    return t[i]\n", {"t": "tabb4"}),
     ("def prog(lo: Parameter[Qint[2]], hi: Parameter[Qint[2]], a: Qint[2]) -> bool:\n    return a >= lo and a < hi\n", {"lo": "i2", "hi": "i2"}),
 ]
 DOM = {
@@ -56,8 +59,13 @@ DOM = {
     "tab23": [[[0, 1, 2], [3, 2, 1]], [[1, 1, 0], [0, 3, 3]], [[3, 0, 1], [2, 2, 0]]],
     "tab32": [[[0, 1], [2, 3], [1, 0]], [[3, 3], [0, 1], [2, 0]]],
     "tab22": [[[0, 1], [2, 3]], [[3, 1], [1, 0]]],
+    "tab4": [[0, 1, 1, 2], [3, 3, 1, 1], [2, 2, 2, 0], [1, 2, 3, 0], [0, 0, 0, 0], [1, 0, 0, 1]],
+    "tabb4": [[True, False, False, True], [False, True, True, True], [False, False, False, False], [True, True, False, False]],
     "tab14": [[[True, False, False, True]], [[False, True, True, False]], [[True, True, False, False]]],
 }
+
+
+EXPECT_REJECT = ("return a[i]\n", "for i in range(n):", "return a << s", "return t[0][c]")
 
 
 def universe():
@@ -114,7 +122,11 @@ def check_item(spec):
         try:
             qf = u.bind(**kw)
         except Exception as e:
-            res.update(cls="lib-reject", note="bind: %s: %s" % (type(e).__name__, str(e)[:80]))
+            if any(x in spec["src"] for x in EXPECT_REJECT):
+                res.update(cls="lib-reject", note="bind: %s: %s" % (type(e).__name__, str(e)[:80]))
+            else:
+                res["findings"].append({"kind": "bind-raises", "what": "bind(%s) raises %s: %s" % (kw, type(e).__name__, str(e)[:100]), "cex": {}, "replayed": True})
+                res["cls"] = "judged"
             break
         if ast.dump(u.fun_ast) != dump0 or sorted(u.parameters) != params0:
             res["findings"].append({"kind": "unbound-modified", "what": "bind(%s) changed the unbound object's AST/parameters" % kw, "cex": {}, "replayed": True})
